@@ -56,12 +56,13 @@ let bound_of t = if t = "-" then Charac.BNone else
     match parse_val t with Charac.VInt z -> Charac.BInt z | Charac.VFloat (b, _) -> Charac.BFloat b | _ -> Charac.BNone
 
 let run (toks : string list) : string =
+  let toks = (match toks with "cc" :: _ :: rest -> "ch" :: rest | t -> t) in
   match toks with
   | "ch" :: f :: perms :: mn :: mx :: init :: ops ->
     let has c = String.contains perms c in
     let iv = (match parse_val init with Charac.VNil -> None | v -> Some v) in
     let c0 = { Charac.format = fmt_of f; p_read = has 'r'; p_write = has 'w'; p_event = has 'e';
-               cvalue = iv; minv = bound_of mn; maxv = bound_of mx } in
+               cvalue = iv; minv = bound_of mn; maxv = bound_of mx; upd_same = (String.contains perms 'S') } in
     let c = ref c0 and out = ref [] and cbs = ref [] and stop = ref false in
     L.iter (fun op ->
         if not !stop then begin
